@@ -331,11 +331,15 @@ def write_fault_dispatch(chk):
     for pv in (47, 340, 757):
         ids = proto.Ids(pv)
         for thr in (None, 64):
-            for tail in ('none', 'goodbye'):
+            for tail in ('none', 'goodbye', 'no-fault'):
                 pre = ([proto.frame(ids.set_compression, proto.varint(thr))] if thr is not None else []) + [proto.frame(ids.login_success, ids.b_login_success(), thr)]
                 first = b''.join(pre) + proto.frame(ids.keep_alive, ids.b_keep_alive(41), thr)
                 later = [('chat', proto.frame(ids.chat, ids.b_chat('{"text":"a"}'), thr)), ('unknown', proto.frame(0x7e, b'opaque', thr)),
                          ('ka', proto.frame(ids.keep_alive, ids.b_keep_alive(42), thr)), ('chat', proto.frame(ids.chat, ids.b_chat('{"text":"b"}'), thr))]
+                from minecraft.networking.packets import clientbound as cb_
+                pm = cb_.play.PluginMessagePacket.get_id(ids.ctx)
+                # plugin messages, one of them with an empty payload (a packet is a packet, whatever it carries)
+                later[1:1] = [('plugin', proto.frame(pm, proto.string('a:b') + b'', thr)), ('plugin', proto.frame(pm, proto.string('c:d') + b'\x01\x02', thr))]
                 if tail == 'goodbye':
                     # (no answer may be pending when the goodbye is dispatched: disconnect() flushes the queue first, and a flush
                     #  onto the dead socket is a second write error raised from inside the reaction - outside this suite)
@@ -351,7 +355,8 @@ def write_fault_dispatch(chk):
                     if nsend[0] > 4:
                         if nsend[0] == 5:
                             net.servers[0].chunks.append(b''.join(f for _n, f in later))
-                        raise BrokenPipeError(errno.EPIPE, 'Broken pipe')
+                        if tail != 'no-fault':
+                            raise BrokenPipeError(errno.EPIPE, 'Broken pipe')
                     return orig(self_, data)
                 sim.SimSocket.send = send
                 try:
@@ -364,12 +369,14 @@ def write_fault_dispatch(chk):
                     sim.SimSocket.send = orig_send
                     net.uninstall()
                 want_ids = [ids.set_compression] * (thr is not None) + [ids.login_success, ids.keep_alive] + [
-                    {'chat': ids.chat, 'unknown': 0x7e, 'ka': ids.keep_alive, 'bye': ids.play_disconnect}[n] for n, _f in later]
+                    {'chat': ids.chat, 'unknown': 0x7e, 'ka': ids.keep_alive, 'bye': ids.play_disconnect, 'plugin': pm}[n] for n, _f in later]
                 exp = [(w, i) for i in want_ids for w in ('early', 'late')]
                 # the model's turn: an IOError (EPIPE) held back from the write phase, then the packets that are readable
-                m_out, m_n = run_model([('loop_turn_n', [[[errno.EPIPE, True]], [[n == 'bye', [], n == 'bye'] for n, _f in later]])])[0]
+                m_out, m_n = run_model([('loop_turn_n', [[[errno.EPIPE, True]] if tail != 'no-fault' else [], [[n == 'bye', [], n == 'bye'] for n, _f in later]])])[0]
+                if tail == 'no-fault':
+                    m_out = [1]                 # (no error is held: nothing is reported; the turn goes on)
                 exp_err = [] if m_out == [1] else ['IOError']
-                if m_n != len(later) or (m_out == [1]) != (tail == 'goodbye'):
+                if m_n != len(later) or (m_out == [1]) != (tail in ('goodbye', 'no-fault')):
                     chk.broken('write-fault-dispatch', 'the model dispatches %d of %d packets and ends with %s' % (m_n, len(later), m_out))
                 case = {'proto': pv, 'threshold': thr, 'after_the_failed_write': [n for n, _f in later]}
                 chk.count('write-fault-dispatch', case, True)
